@@ -93,7 +93,15 @@ OfG(g) == IF g.kind = "missing" THEN OutMissing(g.n, g.prefix)
 JOut(o) == [kind |-> o.kind, n |-> J(o.n), prefix |-> o.prefix, v |-> JV(o.v)]
 \* last: the call just made (ghost); hist: the whole behaviour, for emission
 Log(rec) == hist' = Append(hist, rec) /\ last' = rec
-Ev(a, i, k, v, out) == [a |-> a, i |-> i, k |-> k, v |-> JV(v), out |-> JOut(out)]
+\* hashed children of the branch nodes on the path of k: what branch
+\* normalisation may have to read after a delete
+PathKids(r0, k) == UNION {{x.c[i] : i \in {j \in 1..16 : IsHashed(x.c[j])}} :
+                            x \in {y \in PathNodes(r0, k) : y.t = "branch"}}
+\* every node body an operation on key k may legitimately ask for
+NeedOf(r0, k, isDel) == NeededNodes(r0, k) \cup (IF isDel THEN PathKids(r0, k) ELSE {})
+Ev(a, i, k, v, out, r0) ==
+  [a |-> a, i |-> i, k |-> k, v |-> JV(v), out |-> JOut(out),
+   need |-> IF out.kind = "missing" THEN JSet(NeedOf(r0, k, v = NoVal)) ELSE {}]
 
 Init == /\ prune \in PruneModes
         /\ db = {} /\ root = Blank /\ rc = EmptyBag /\ contents = EmptyContents
@@ -116,7 +124,7 @@ Direct(k, v) ==
   /\ LET pl == Plan(root, k, v, Only(db)) IN
      IF pl.miss # 0
      THEN /\ res' = OutMissing(pl.e[pl.miss][2], <<>>)
-          /\ Log(Ev("set", 1, k, v, res'))
+          /\ Log(Ev("set", 1, k, v, res', root))
           /\ UNCHANGED <<db, root, rc, contents, past>>
      ELSE /\ contents' = [contents EXCEPT ![k] = v]
           /\ root' = pl.n
@@ -128,7 +136,7 @@ Direct(k, v) ==
                   /\ db' = db \cup {WriteSeq(pl)[i] : i \in 1..Len(WriteSeq(pl))}
           /\ past' = past \cup {[r |-> root', c |-> contents']}
           /\ res' = OutOk
-          /\ Log(Ev("set", 1, k, v, res'))
+          /\ Log(Ev("set", 1, k, v, res', root))
   /\ UNCHANGED <<prune, root2, contents2, bopen, cache, corder, broot, brc, bcontents,
                  bops, lost>>
 
@@ -168,7 +176,7 @@ Direct2(k, v) ==
           /\ db' = db \cup {WriteSeq(pl)[i] : i \in 1..Len(WriteSeq(pl))}
           /\ past' = past \cup {[r |-> root2', c |-> contents2']}
           /\ res' = OutOk
-  /\ Log(Ev("set", 2, k, v, res'))
+  /\ Log(Ev("set", 2, k, v, res', root2))
   /\ UNCHANGED <<prune, root, rc, contents, bopen, cache, corder, broot, brc, bcontents,
                  bops, lost>>
 
@@ -204,7 +212,7 @@ BatchOp(k, v) ==
           /\ corder' = AppendNew(AppendNew(corder, WriteSeq(pl)), x.dseq)
           /\ res' = OutOk
   /\ bops' = bops + 1
-  /\ Log(Ev("bset", 1, k, v, res'))
+  /\ Log(Ev("bset", 1, k, v, res', broot))
   /\ UNCHANGED <<prune, db, root, contents, root2, contents2, bopen, lost, past>>
 
 \* buffered writes in the order ScratchDB.batch_commit applies them
@@ -269,7 +277,29 @@ Get(k) ==
   /\ "get" \in Features
   /\ LET g == IF bopen THEN GetOut(broot, k, ScratchHas, Bugs) ELSE GetOut(root, k, Only(db), Bugs)
      IN res' = OfG(g)
-  /\ Log([a |-> IF bopen THEN "bget" ELSE "get", i |-> 1, k |-> k, out |-> JOut(res')])
+  /\ Log([a |-> IF bopen THEN "bget" ELSE "get", i |-> 1, k |-> k, out |-> JOut(res'),
+          need |-> IF res'.kind = "missing"
+                   THEN JSet(NeededNodes(IF bopen THEN broot ELSE root, k)) ELSE {}])
+  /\ UNCHANGED <<prune, db, root, rc, contents, root2, contents2, bopen, cache, corder,
+                 broot, brc, bcontents, bops, lost, past>>
+
+DevNibs == {0, 1, 7, 15}
+TravPaths(c) == PathsOf(Live(c), DevNibs)
+Splits(p) == {<<Take(p, n), Drop(p, n)>> : n \in 0..Len(p)}
+\* traverse(path) and traverse_from(traverse(prefix), seg) on the outer trie (read only)
+OutTrav(o) == [kind |-> o.kind, n |-> o.n, prefix |-> o.trav, v |-> NoVal]
+Traverse(p) ==
+  /\ "trav" \in Features /\ ~bopen
+  /\ res' = OutTrav(TravRoot(root, p, Only(db)))
+  /\ Log([a |-> "trav", i |-> 1, k |-> p, out |-> JOut(res')])
+  /\ UNCHANGED <<prune, db, root, rc, contents, root2, contents2, bopen, cache, corder,
+                 broot, brc, bcontents, bops, lost, past>>
+TraverseFrom(pre, seg) ==
+  /\ "trav" \in Features /\ ~bopen
+  /\ LET o == TravRoot(root, pre, Complete) IN
+     /\ o.kind = "node" /\ o.n.t # "blank"
+     /\ res' = OutTrav(TravFrom(o.n, seg, Only(db)))
+  /\ Log([a |-> "travfrom", i |-> 1, k |-> pre, seg |-> seg, out |-> JOut(res')])
   /\ UNCHANGED <<prune, db, root, rc, contents, root2, contents2, bopen, cache, corder,
                  broot, brc, bcontents, bops, lost, past>>
 
@@ -280,6 +310,8 @@ Other == \/ \E k \in Keys : \E v \in Vals \cup {NoVal} :
          \/ \E n \in db : EnvLose(n)
          \/ \E n \in lost : EnvSupply(n)
          \/ \E k \in LookupKeys : Get(k)
+         \/ \E p \in TravPaths(contents) : Traverse(p)
+         \/ \E p \in TravPaths(contents) : \E sp \in Splits(p) : TraverseFrom(sp[1], sp[2])
 Next == Begin \/ (Other /\ UNCHANGED saved)
 Spec == Init /\ [][Next]_vars
 
@@ -354,10 +386,6 @@ FailedCallUnchanged ==
   [][res'.kind \in {"missing", "verr"} =>
         UNCHANGED <<prune, db, root, rc, contents, root2, contents2, bopen, cache, corder,
                     broot, brc, bcontents, lost, past>>]_vars
-\* hashed children of the branch nodes on the path of k: what branch
-\* normalisation may have to read after a delete
-PathKids(r0, k) == UNION {{x.c[i] : i \in {j \in 1..16 : IsHashed(x.c[j])}} :
-                            x \in {y \in PathNodes(r0, k) : y.t = "branch"}}
 \* a reported node is really absent and really on the path of the key
 ReportedTruth ==
   [][res'.kind = "missing" =>
@@ -386,4 +414,63 @@ RetryConverges ==
   lost # {} => \A k \in Keys : \A v \in Vals \cup {NoVal} :
      RetryLen(IF bopen THEN broot ELSE root, k, v,
               IF bopen THEN CacheW \cup db ELSE db, {}) <= Cardinality(lost)
+---------------------------------------------------------------------------
+\* C08  traversals describe the canonical node at every path
+TraverseMatchesCanon ==
+  lost = {} => \A p \in TravPaths(contents) :
+                  Describe(TravRoot(root, p, Only(db))) = NodeAt(AsMap(contents), p)
+\* traverse_from(node at prefix, seg) = traverse(prefix \o seg), nibbles relative to the node
+TraverseFromAgrees ==
+  \A p \in TravPaths(contents) : \A sp \in Splits(p) :
+     LET a == TravRoot(root, sp[1], Complete)
+         whole == TravRoot(root, p, Complete)
+     IN IF a.kind = "node" /\ a.n.t # "blank"
+        THEN LET f == TravFrom(a.n, sp[2], Complete) IN
+             /\ f.kind = whole.kind /\ f.n = whole.n /\ f.tail = whole.tail
+             /\ sp[1] \o f.trav = whole.trav
+             /\ f.reads <= f.hops
+        ELSE IF a.kind = "partial" /\ sp[2] # <<>>
+        THEN \* continuing from the simulated node reaches the same place
+             LET f == TravFrom(Sim(a), sp[2], Complete) IN
+             /\ f.kind = whole.kind
+             /\ (f.kind = "node" => f.n = whole.n)
+             /\ (f.kind = "partial" => Sim(f) = Sim(whole))
+        ELSE TRUE
+RootNodeIsTraverseEmpty == TravRoot(root, <<>>, Complete).n = root
+
+\* C07 for traversals: on an incomplete database a traversal gives the complete
+\* answer or names an absent node with the exact nibble path leading to it
+TraverseTruth ==
+  \A p \in TravPaths(contents) :
+     LET o == TravRoot(root, p, Only(db))
+         oc == TravRoot(root, p, Complete)
+     IN IF o.kind = "missing"
+        THEN /\ o.n \notin db /\ (IsHashed(o.n) \/ o.n = root)
+             /\ StartsWith(p, o.trav)
+             /\ LET t == TravRoot(root, o.trav, Complete) IN t.kind = "node" /\ t.n = o.n
+        ELSE Describe(o) = Describe(oc)
+
+\* a lookup that does not fail gives the complete-database answer
+GetSameAsComplete ==
+  \A k \in LookupKeys :
+     LET g == GetOut(root, k, Only(db), Bugs) IN
+     g.kind = "missing" \/ g = GVal(ModelVal(contents, k))
+
+\* C03  proofs
+ProofSet(r, k) == LET pf == Proof(r, k) IN {pf[i] : i \in 1..Len(pf)}
+ProofComplete ==
+  lost = {} => \A k \in LookupKeys :
+     VerifyProof(root, k, ProofSet(root, k), Bugs) = [kind |-> "val", v |-> ModelVal(contents, k)]
+ProofOnPath == \A k \in LookupKeys : ProofSet(root, k) \subseteq PathNodes(root, k)
+\* whatever subset of the needed nodes a verifier is given (together with anything
+\* else: under content addressing other nodes cannot matter), it obtains the value
+\* the trie with that root really holds, or refuses; it refuses whenever a hashed
+\* node on the path is withheld
+ProofSound ==
+  \A pr \in past \cup {[r |-> root, c |-> contents]} : \A k \in LookupKeys :
+     \A PP \in SUBSET NeededNodes(pr.r, k) :
+        LET out == VerifyProof(pr.r, k, PP \cup (db \ NeededNodes(pr.r, k)), Bugs) IN
+        /\ out \in {[kind |-> "val", v |-> Lookup(pr.r, k)], [kind |-> "bad", v |-> NoVal]}
+        /\ (PP # NeededNodes(pr.r, k) => out.kind = "bad")
+        /\ (PP = NeededNodes(pr.r, k) => out.kind = "val")
 =============================================================================
